@@ -41,30 +41,73 @@ def run_main(stage, argv, verbose):
         lg.setLevel(level)
 
 
+class Call:
+    """one recorded call of a wrapped implementation function: raw positional / keyword arguments as they were passed, and the result"""
+
+    def __init__(self, real, args, kwargs, out):
+        self.real, self.args, self.kwargs, self.out = real, args, kwargs, out
+
+    def arg(self, name):
+        """the argument called `name` in the ORIGINAL function's signature, however it was passed (item 21); raises LookupError when the
+        call cannot be bound to that signature or has no such parameter -- the caller turns that into a broken tie, never a violation"""
+        import inspect
+        try:
+            ba = inspect.signature(self.real).bind(*self.args, **self.kwargs)
+            ba.apply_defaults()
+        except (TypeError, ValueError) as e:
+            raise LookupError("cannot bind the recorded call: %s" % e)
+        if name not in ba.arguments:
+            raise LookupError("the wrapped function has no parameter %r any more" % name)
+        return ba.arguments[name]
+
+
 @contextlib.contextmanager
 def recording(stage, name):
-    """replace `batchie.cli.<stage>.<name>` by a wrapper that records every call (arguments, result) and passes it through"""
+    """replace `batchie.cli.<stage>.<name>` by a wrapper that records every call and passes it through UNCHANGED: the wrappers take
+    `*args, **kwargs` (a refactor may add an optional keyword or pass an argument by name) and never interpret them themselves"""
     mod = importlib.import_module("batchie.cli." + stage)
     real = getattr(mod, name)
     calls = []
     if name == "Screen":
         class Rec(real):            # the CLI only calls Screen.load_h5
             @staticmethod
-            def load_h5(path):
-                s = real.load_h5(path)
-                calls.append(((path,), s))
+            def load_h5(*args, **kwargs):
+                s = real.load_h5(*args, **kwargs)
+                calls.append(Call(real.load_h5, args, kwargs, s))
                 return s
         setattr(mod, name, Rec)
     else:
-        def wrapper(*a, **k):
-            out = real(*a, **k)
-            calls.append((a, k, out))
+        def wrapper(*args, **kwargs):
+            out = real(*args, **kwargs)
+            calls.append(Call(real, args, kwargs, out))
             return out
         setattr(mod, name, wrapper)
     try:
         yield calls
     finally:
         setattr(mod, name, real)
+
+
+def wrapper_trouble(res, prop, where, case, detail):
+    """the harness's own recording could not make sense of a call (item 21), or a batchie-written file does not have the layout the harness
+    reads by name (item 20): a broken tie, never a violation"""
+    res.count("wrapper.unexpected-call" if not where.startswith("layout") else "layout.unexpected")
+    res.disagree("%s:harness-knowledge:%s" % (prop, where), {"case": case}, str(detail)[:400], "the call / layout the harness knows")
+
+
+def raised_in_harness(exc):
+    """does the exception come from harness code (a wrapper, an unpack of recorded arguments) rather than from the implementation? Decided by the
+    innermost traceback frame that lies either in the implementation's sources or in the harness (frames of numpy / pandas / h5py below are skipped)"""
+    import traceback
+    repo = os.path.abspath(common.REPO) + os.sep
+    mine = (os.path.join(common.VERIF, "harness") + os.sep, os.path.join(common.VERIF, "vlib") + os.sep)
+    for fr in reversed(traceback.extract_tb(exc.__traceback__)):
+        f = os.path.abspath(fr.filename)
+        if f.startswith(repo):
+            return False
+        if f.startswith(mine):
+            return True
+    return False
 
 
 def entry_raw(rng, arity=None, n_min=6, n_max=14, nan_obs=False):
